@@ -101,6 +101,11 @@ int main(int argc, char** argv) {
   BoxOpts ow = wide_layer(o.cf); ow.inplace = true;
   std::vector<ApiGroup> wgroups = api_groups(ow);
   ctx.parallel(wgroups.size(), [&](uint64_t gi) { run_group(wgroups[gi], ow, runs); }, "entry points, wide shapes");
+  if (!th) {
+    BoxOpts ot = top_layer(); ot.inplace = true;
+    std::vector<ApiGroup> tgroups = api_groups(ot);
+    ctx.parallel(tgroups.size(), [&](uint64_t gi) { run_group(tgroups[gi], ot, runs); }, "entry points, N = 65536");
+  }
   std::vector<KernelGroup> kg = kernel_groups(th);
   ctx.parallel(kg.size(), [&](uint64_t gi) { run_kernel_group(kg[gi], th, [&](ApiCase& c, const KernelInfo&) { runs(c); }); }, "kernels");
 
